@@ -180,6 +180,10 @@ def required_missing(P, m, tier):
     allc.update(m["situations"])
     for name in req:
         if allc.get(name, 0) <= 0:
+            if name.startswith("post:") and allc.get("hook_missing:" + name[5:], 0) > 0:
+                continue  # contract on an optional internal helper that no longer exists
+            if m["probes"].get(name) == "unattached":
+                continue  # coverage counter tied to a source line that no longer exists
             missing.append(name)
     for k, v in m["probes"].items():
         if v == "unattached" and k in getattr(P, "REQUIRED_PROBES", ()):
